@@ -442,3 +442,328 @@ impl Brc20ProgDatabase {
         self.db_block_number_to_hash.as_mut().unwrap().verif_store().verif_plant_last(&n.to_be_bytes(), &[9u8; 32]);
     }
 }
+
+// ------------------------------------------------------------------------------------------- D9
+// The per-log address / topic filter of `get_logs` (C18), on the real function.
+// One uncommitted (block,index) row -> tx hash and one uncommitted receipt are PLANTED in the
+// caches of the two tables (cache-hit paths only: no long key is pushed through the codec on a
+// miss), the height is cached; the receipt's logs (addresses, topics), its `to` / created
+// address, the address filter and the members of the topic filter are symbolic, the *shape* of
+// the filter and the number of topics per log are enumerated per instance.
+// Oracle: the reference predicate below, written from the property text (positional, null =
+// wildcard, list = alternatives; a position beyond the log's topic count never matches a
+// non-wildcard). `null` inside a list and the empty list are not exercised (the statement
+// does not say what they mean).
+#[cfg(kani)]
+pub(crate) mod verif_d9 {
+    use super::*;
+    use crate::db::types::{BytesED, B2048ED, U8ED};
+
+    const BLK: u64 = 3;
+
+    fn opt32() -> Option<[u8; 32]> {
+        let s: bool = kani::any();
+        let v: [u8; 32] = kani::any();
+        if s { Some(v) } else { None }
+    }
+    fn opt_addr() -> Option<AddressED> {
+        let s: bool = kani::any();
+        let v: [u8; 20] = kani::any();
+        if s { Some(AddressED::from(v)) } else { None }
+    }
+    fn single(x: Option<[u8; 32]>) -> SingleOrVec<Option<B256>> {
+        SingleOrVec::Single(x.map(B256::from))
+    }
+    fn list2(a: [u8; 32], b: [u8; 32]) -> SingleOrVec<Option<B256>> {
+        SingleOrVec::Vec(vec![Some(B256::from(a)), Some(B256::from(b))])
+    }
+    fn list1(a: [u8; 32]) -> SingleOrVec<Option<B256>> {
+        SingleOrVec::Vec(vec![Some(B256::from(a))])
+    }
+
+    /// reference filter position: what one position of the topic filter asks of a log
+    #[derive(Clone, Copy)]
+    enum Pos {
+        Wild,
+        One([u8; 32]),
+        Two([u8; 32], [u8; 32]),
+    }
+    fn pos_of_single(x: Option<[u8; 32]>) -> Pos {
+        match x {
+            None => Pos::Wild,
+            Some(t) => Pos::One(t),
+        }
+    }
+    fn pos_ok(p: Pos, nt: usize, tops: &[[u8; 32]; 2], i: usize) -> bool {
+        match p {
+            Pos::Wild => true,
+            Pos::One(t) => i < nt && tops[i] == t,
+            Pos::Two(a, b) => i < nt && (tops[i] == a || tops[i] == b),
+        }
+    }
+
+    fn mk_log(idx: u64, addr: [u8; 20], nt: usize, tops: &[[u8; 32]; 2]) -> LogED {
+        let mut topics = Vec::new();
+        let mut i = 0;
+        while i < nt {
+            topics.push(B256ED::from(tops[i]));
+            i += 1;
+        }
+        LogED {
+            address: AddressED::from(addr),
+            topics,
+            data: BytesED::from(Vec::<u8>::new()),
+            transaction_index: U64ED::from(0u64),
+            transaction_hash: B256ED::from([7u8; 32]),
+            block_hash: B256ED::from([8u8; 32]),
+            block_number: U64ED::from(BLK),
+            log_index: U64ED::from(idx),
+        }
+    }
+
+    // Symbolic receipt content handed to the `get_tx_receipt` stub (non-zero initial values: Kani
+    // 0.68 shares zero-initialised statics with other all-zero constants, DESIGN.md 11.1).
+    static mut SA: [[u8; 20]; 2] = [[0xA5; 20]; 2];
+    static mut ST: [[[u8; 32]; 2]; 2] = [[[0xB6; 32]; 2]; 2];
+    static mut SN: [usize; 3] = [9, 9, 9]; // topics of log 0, of log 1, number of logs
+    static mut STO: ([u8; 20], [u8; 20], u8) = ([0xC7; 20], [0xC8; 20], 0xFF); // to, created, presence bits
+
+    fn receipt_of(nlogs: usize, nt0: usize, nt1: usize, a: &[[u8; 20]; 2], t: &[[[u8; 32]; 2]; 2], to: Option<AddressED>, created: Option<AddressED>) -> TxReceiptED {
+        TxReceiptED {
+            status: U8ED::from(1u8),
+            logs: if nlogs == 2 { vec![mk_log(0, a[0], nt0, &t[0]), mk_log(1, a[1], nt1, &t[1])] } else { vec![mk_log(0, a[0], nt0, &t[0])] },
+            gas_used: U64ED::from(0u64),
+            from: AddressED::from([1u8; 20]),
+            to,
+            contract_address: created,
+            logs_bloom: B2048ED::from([0u8; 256]),
+            block_hash: B256ED::from([8u8; 32]),
+            block_number: U64ED::from(BLK),
+            transaction_hash: B256ED::from([7u8; 32]),
+            transaction_index: U64ED::from(0u64),
+            cumulative_gas_used: U64ED::from(0u64),
+            effective_gas_price: U64ED::from(0u64),
+            transaction_type: U8ED::from(0u8),
+        }
+    }
+    /// stands for `Brc20ProgDatabase::get_tx_receipt` (a point read of the receipt table: T1): returns
+    /// the receipt the harness described in the statics above, for whatever hash is asked
+    pub fn get_tx_receipt_stub(_db: &Brc20ProgDatabase, _h: B256) -> Result<Option<TxReceiptED>, Box<dyn Error>> {
+        unsafe {
+            let to = if STO.2 & 1 != 0 { Some(AddressED::from(STO.0)) } else { None };
+            let cr = if STO.2 & 2 != 0 { Some(AddressED::from(STO.1)) } else { None };
+            Ok(Some(receipt_of(SN[2], SN[0], SN[1], &SA, &ST, to, cr)))
+        }
+    }
+
+    /// stands for `BlockCachedDatabase::get_range` (T2 decides the scan itself: exactness at both
+    /// boundaries, cache over disk, key order): returns every live row planted in the table's
+    /// cache, in the order planted - the harness plants rows in key order, all inside the range asked
+    pub fn get_range_stub<K, V, C>(this: &BlockCachedDatabase<K, V, C>, _s: &K, _e: &K) -> Result<Vec<(K, V)>, Box<dyn Error>>
+    where
+        K: crate::db::types::Encode + crate::db::types::Decode + Eq + std::hash::Hash + Clone,
+        V: crate::db::types::Encode + crate::db::types::Decode + Eq + Clone,
+        C: crate::db::cached_database::BlockHistoryCache<V> + crate::db::types::Encode + crate::db::types::Decode + Clone,
+    {
+        Ok(this.verif_cached_rows())
+    }
+
+    /// same obligation with the receipt lookup stubbed: only the (block,index) row is planted
+    fn run_stubbed(nlogs: usize, nt0: usize, nt1: usize, shape: u8) {
+        let mut d = Brc20ProgDatabase::default();
+        d.db_number_and_index_to_tx_hash = Some(BlockCachedDatabase::verif_model_ctl(None, 16, 17));
+        d.latest_block_number = Some((BLK, B256::ZERO));
+        let h = B256ED::from([7u8; 32]);
+        let key: U128ED = Brc20ProgDatabase::get_number_and_index_key(BLK, 0).into();
+        d.db_number_and_index_to_tx_hash
+            .as_mut()
+            .unwrap()
+            .verif_put_cache(key, BlockHistoryCacheData::verif_from(&[(BLK, Some(h))]));
+        let a: [[u8; 20]; 2] = kani::any();
+        let t: [[[u8; 32]; 2]; 2] = kani::any();
+        let to: [u8; 20] = kani::any();
+        let cr: [u8; 20] = kani::any();
+        let bits: u8 = kani::any();
+        unsafe {
+            SA = a;
+            ST = t;
+            SN = [nt0, nt1, nlogs];
+            STO = (to, cr, bits);
+        }
+        let fa_some: bool = kani::any();
+        let fa: [u8; 20] = kani::any();
+        let x = opt32();
+        let y = opt32();
+        let aa: [u8; 32] = kani::any();
+        let bb: [u8; 32] = kani::any();
+        let (topics, p0, p1) = match shape {
+            0 => (None, Pos::Wild, Pos::Wild),
+            1 => (Some(vec![single(x)]), pos_of_single(x), Pos::Wild),
+            2 => (Some(vec![single(x), single(y)]), pos_of_single(x), pos_of_single(y)),
+            3 => (Some(vec![list2(aa, bb)]), Pos::Two(aa, bb), Pos::Wild),
+            4 => (Some(vec![single(x), list2(aa, bb)]), pos_of_single(x), Pos::Two(aa, bb)),
+            _ => (Some(vec![list1(aa), single(y)]), Pos::One(aa), pos_of_single(y)),
+        };
+        let want0 = (!fa_some || a[0] == fa) && pos_ok(p0, nt0, &t[0], 0) && pos_ok(p1, nt0, &t[0], 1);
+        let want1 = nlogs == 2 && (!fa_some || a[1] == fa) && pos_ok(p0, nt1, &t[1], 0) && pos_ok(p1, nt1, &t[1], 1);
+        let r = d.get_logs(Some(BLK), Some(BLK), if fa_some { Some(Address::from(fa)) } else { None }, topics);
+        let out = r.unwrap();
+        let n = (want0 as usize) + (want1 as usize);
+        assert!(out.len() == n);
+        if want0 {
+            assert!(out[0].log_index == U64ED::from(0u64));
+        }
+        if want1 {
+            assert!(out[n - 1].log_index == U64ED::from(1u64));
+        }
+        kani::cover!(want0 || want1);
+        kani::cover!(!want0 || (nlogs == 2 && !want1));
+        core::mem::forget(out);
+        core::mem::forget(d);
+    }
+    macro_rules! d9s {
+        ($name:ident, $nl:expr, $nt0:expr, $nt1:expr, $shape:expr) => {
+            #[kani::proof]
+            #[kani::stub(Brc20ProgDatabase::get_tx_receipt, get_tx_receipt_stub)]
+            #[kani::stub(BlockCachedDatabase::get_range, get_range_stub)]
+            fn $name() {
+                run_stubbed($nl, $nt0, $nt1, $shape);
+            }
+        };
+    }
+    d9s!(d9s_one_t1_s, 1, 1, 0, 1);
+    d9s!(d9s_t12_none, 2, 1, 2, 0);
+    d9s!(d9s_t12_s, 2, 1, 2, 1);
+    d9s!(d9s_t12_ss, 2, 1, 2, 2);
+    d9s!(d9s_t12_v, 2, 1, 2, 3);
+    d9s!(d9s_t12_sv, 2, 1, 2, 4);
+    d9s!(d9s_t12_vs, 2, 1, 2, 5);
+    d9s!(d9s_t01_ss, 2, 0, 1, 2);
+    d9s!(d9s_t01_v, 2, 0, 1, 3);
+    d9s!(d9s_t20_sv, 2, 2, 0, 4);
+    d9s!(d9s_t22_ss, 2, 2, 2, 2);
+    d9s!(d9s_t22_sv, 2, 2, 2, 4);
+    d9s!(d9s_t21_vs, 2, 2, 1, 5);
+
+    // diagnostic pieces (not registered)
+    #[kani::proof]
+    fn d9x_only_range() {
+        let mut d = Brc20ProgDatabase::default();
+        d.db_number_and_index_to_tx_hash = Some(BlockCachedDatabase::verif_model_ctl(None, 16, 17));
+        let h = B256ED::from([7u8; 32]);
+        let key: U128ED = Brc20ProgDatabase::get_number_and_index_key(BLK, 0).into();
+        d.db_number_and_index_to_tx_hash.as_mut().unwrap().verif_put_cache(key, BlockHistoryCacheData::verif_from(&[(BLK, Some(h))]));
+        let r = d.db_number_and_index_to_tx_hash.as_ref().unwrap().get_range(
+            &Brc20ProgDatabase::get_number_and_index_key(BLK, 0).into(),
+            &Brc20ProgDatabase::get_number_and_index_key(BLK + 1, 0).into(),
+        ).unwrap();
+        assert!(r.len() == 1);
+        kani::cover!(true);
+        core::mem::forget(r);
+        core::mem::forget(d);
+    }
+
+    /// shape: 0 no topic filter; 1 [x]; 2 [x, y]; 3 [[a, b]]; 4 [x, [a, b]]; 5 [[a], y]
+    fn run(nlogs: usize, nt0: usize, nt1: usize, shape: u8) {
+        let mut d = Brc20ProgDatabase::default();
+        d.db_number_and_index_to_tx_hash = Some(BlockCachedDatabase::verif_model_ctl(None, 16, 17));
+        d.db_tx_receipt = Some(BlockCachedDatabase::verif_model_ctl(None, 18, 19));
+        d.latest_block_number = Some((BLK, B256::ZERO));
+        let h = B256ED::from([7u8; 32]);
+        let key: U128ED = Brc20ProgDatabase::get_number_and_index_key(BLK, 0).into();
+        d.db_number_and_index_to_tx_hash
+            .as_mut()
+            .unwrap()
+            .verif_put_cache(key, BlockHistoryCacheData::verif_from(&[(BLK, Some(h))]));
+
+        let a0: [u8; 20] = kani::any();
+        let a1: [u8; 20] = kani::any();
+        let t0: [[u8; 32]; 2] = kani::any();
+        let t1: [[u8; 32]; 2] = kani::any();
+        let receipt = TxReceiptED {
+            status: U8ED::from(1u8),
+            logs: if nlogs == 2 { vec![mk_log(0, a0, nt0, &t0), mk_log(1, a1, nt1, &t1)] } else { vec![mk_log(0, a0, nt0, &t0)] },
+            gas_used: U64ED::from(0u64),
+            from: AddressED::from([1u8; 20]),
+            to: opt_addr(),
+            contract_address: opt_addr(),
+            logs_bloom: B2048ED::from([0u8; 256]),
+            block_hash: B256ED::from([8u8; 32]),
+            block_number: U64ED::from(BLK),
+            transaction_hash: h,
+            transaction_index: U64ED::from(0u64),
+            cumulative_gas_used: U64ED::from(0u64),
+            effective_gas_price: U64ED::from(0u64),
+            transaction_type: U8ED::from(0u8),
+        };
+        d.db_tx_receipt
+            .as_mut()
+            .unwrap()
+            .verif_put_cache(h, BlockHistoryCacheData::verif_from(&[(BLK, Some(receipt))]));
+
+        // the filter
+        let fa_some: bool = kani::any();
+        let fa: [u8; 20] = kani::any();
+        let x = opt32();
+        let y = opt32();
+        let a: [u8; 32] = kani::any();
+        let b: [u8; 32] = kani::any();
+        let (topics, p0, p1) = match shape {
+            0 => (None, Pos::Wild, Pos::Wild),
+            1 => (Some(vec![single(x)]), pos_of_single(x), Pos::Wild),
+            2 => (Some(vec![single(x), single(y)]), pos_of_single(x), pos_of_single(y)),
+            3 => (Some(vec![list2(a, b)]), Pos::Two(a, b), Pos::Wild),
+            4 => (Some(vec![single(x), list2(a, b)]), pos_of_single(x), Pos::Two(a, b)),
+            _ => (Some(vec![list1(a), single(y)]), Pos::One(a), pos_of_single(y)),
+        };
+        let want0 = (!fa_some || a0 == fa) && pos_ok(p0, nt0, &t0, 0) && pos_ok(p1, nt0, &t0, 1);
+        let want1 = nlogs == 2 && (!fa_some || a1 == fa) && pos_ok(p0, nt1, &t1, 0) && pos_ok(p1, nt1, &t1, 1);
+
+        let r = d.get_logs(Some(BLK), Some(BLK), if fa_some { Some(Address::from(fa)) } else { None }, topics);
+        let out = r.unwrap();
+        let n = (want0 as usize) + (want1 as usize);
+        assert!(out.len() == n);
+        if want0 {
+            assert!(out[0].log_index == U64ED::from(0u64));
+        }
+        if want1 {
+            assert!(out[n - 1].log_index == U64ED::from(1u64));
+        }
+        kani::cover!(want0 || want1);
+        kani::cover!(!want0 || (nlogs == 2 && !want1));
+        core::mem::forget(out);
+        core::mem::forget(d);
+    }
+
+    macro_rules! d9 {
+        ($name:ident, $nt0:expr, $nt1:expr, $shape:expr) => {
+            #[kani::proof]
+            fn $name() {
+                run(2, $nt0, $nt1, $shape);
+            }
+        };
+    }
+    macro_rules! d9one {
+        ($name:ident, $nt0:expr, $shape:expr) => {
+            #[kani::proof]
+            fn $name() {
+                run(1, $nt0, 0, $shape);
+            }
+        };
+    }
+    d9one!(d9_one_t1_none, 1, 0);
+    d9one!(d9_one_t1_s, 1, 1);
+    d9one!(d9_one_t2_sv, 2, 4);
+    d9!(d9_filter_t12_none, 1, 2, 0);
+    d9!(d9_filter_t12_s, 1, 2, 1);
+    d9!(d9_filter_t12_ss, 1, 2, 2);
+    d9!(d9_filter_t12_v, 1, 2, 3);
+    d9!(d9_filter_t12_sv, 1, 2, 4);
+    d9!(d9_filter_t12_vs, 1, 2, 5);
+    d9!(d9_filter_t01_ss, 0, 1, 2);
+    d9!(d9_filter_t01_v, 0, 1, 3);
+    d9!(d9_filter_t20_sv, 2, 0, 4);
+    d9!(d9_filter_t22_ss, 2, 2, 2);
+    d9!(d9_filter_t22_sv, 2, 2, 4);
+    d9!(d9_filter_t21_vs, 2, 1, 5);
+}
